@@ -47,11 +47,39 @@ TOL = 1e-9
 
 # ----------------------------------------------------------------------------- generator
 
-def gen_case(rng, big=False):
+SIZES = [101, 117, 130, 150, 199, 230]      # beyond one block of 100 particles (the routine reports progress per 100)
+
+
+def size_guard(c):
+    """size stream: no pair within 1e-6 of its cutoff, no fractional separation within 1e-9 of a rounding tie (float64 evaluation)"""
+    H = np.array([[float(x) for x in row] for row in c["H"]])
+    X = np.array([[float(x) for x in row] for row in c["pos"]])
+    ppp = np.array([int(p) for p in c["ppp"]])
+    S = (X[:, None, :] - X[None, :, :]) @ np.linalg.inv(H)
+    if np.any(np.abs(np.abs(S - np.rint(S)) - 0.5) < 1e-9):
+        return False
+    R = np.linalg.norm((S - np.rint(S) * ppp) @ H, axis=2)
+    t = np.array(c["types"]) - 1
+    RC = np.array([[float(x) for x in row] for row in c["rc"]])[t[:, None], t[None, :]]
+    off = ~np.eye(len(X), dtype=bool)
+    return bool(np.all(np.abs(R - RC)[off] > 1e-6) and R[off].min() > 0.3)
+
+
+def gen_size_case(rng, n=None):
+    for _ in range(50):
+        c = gen_case(rng, n=n or rng.choice(SIZES))
+        c["size"] = True
+        if size_guard(c):
+            return c
+    raise common.Infra("no guarded size case")
+
+
+def gen_case(rng, big=False, n=None):
     d = rng.choice([2, 3])
-    n = rng.randint(2, 10 if big else 7)
-    if d == 3 and n > 8:
-        n = 8
+    if n is None:
+        n = rng.randint(2, 10 if big else 7)
+        if d == 3 and n > 8:
+            n = 8
     model = rng.choice(["lj", "ipl", "hh"])
     nt = rng.choice([1, 2, 2, 3])
     kind = "orth" if rng.random() < 0.7 else "tri"
@@ -64,6 +92,7 @@ def gen_case(rng, big=False):
         for i in range(d):
             for j in range(i):
                 H[i][j] = dec(rng, -0.8, 0.8)
+        common.sparse_tilt(rng, H)
     ppp = ["1"] * d if rng.random() < 0.5 else [rng.choice(["0", "1"]) for _ in range(d)]
     types = [rng.randint(1, nt) for _ in range(n)]
     if rng.random() < 0.35:
@@ -503,6 +532,14 @@ def correspond(run):
         lambda rng, c: dict(c, pos=common.jitter_positions(rng, c["pos"], 0.04, 3)), every=5)   # same cell, types, parameters: positions moved a little
     dis, pf = run_cases(run, cases, nfd=2 if quick else 4)
     run.coverage["traces_validated_against_impl"] = run.coverage["evaluations"]
+    # size stream: more than 100 particles, judged against the documented energy only (the exact-ℚ driver is not run at this size)
+    for _ in range(1 if quick else 6):
+        c = gen_size_case(run.rng)
+        run.hist("stream", "size"); run.hist("size_n", c["n"])
+        run.count({"size": c["n"], "pos": c["pos"][:3]}, True)
+        w = failing(c, run.rng, nfd=1)
+        if w:
+            pf.append((c, w))
     run.coverage["programs"] = 3
     broken = []
     if dis:
@@ -519,7 +556,7 @@ def correspond(run):
 def shrink(c, key, rng):
     """drop particles while the same failure key persists"""
     cur = c
-    changed = True
+    changed = not c.get("size")           # size stream: the particle number is the point
     while changed and cur["n"] > 2:
         changed = False
         for drop in range(cur["n"]):
@@ -544,13 +581,14 @@ def search(run, broken):
         pool += b.get("cases", [])
     extra = 150 if run.tier == "quick" else 1500
     pool += [gen_case(run.rng) for _ in range(extra)]
+    pool += [gen_size_case(run.rng, n) for n in SIZES]
     found = {}
     tried = 0
     for c in pool:
         if len(found) >= 4:
             break
         try:
-            if not _guarded(c):
+            if not (size_guard(c) if c.get("size") else _guarded(c)):
                 continue
         except common.Infra:
             pass
